@@ -93,7 +93,7 @@ def traces_of(case, graph):
         o = al.OBS[pos]
         four = [[o[0], al.FAR[pos], o[1], o[2]], [o[0], o[1], al.FAR[pos], o[2]]]
         return [t for t in trace_set(pos, case["T"], n_obs=3, with_far=(case.get("tier") == "thorough")) if len(t) == case["T"]] + four
-    return trace_set(pos, case["T"], n_obs=4, with_far=False)
+    return trace_set(pos, case["T"], n_obs=case.get("n_obs", 4), with_far=False)
 
 
 def run(case, cfgs_for, judge, res, hist_cfgs=None, hist_depth=3, uniques=(False,), backend="inmem", linked=None, judge_hist=None):
